@@ -7,6 +7,7 @@ CONSTANTS
   B0s <- B0S
   Modes <- ModesAll
   MaxSweeps = 2
+  MinExtra = 1
   Ranks = "max"
   Mutant = "skip_last"
   Emit = FALSE
